@@ -39,16 +39,24 @@ impl Iterator for Chars<'_> {
         let width = utf8_width::get_width(self.bytes[self.pos]);
         if width == 1 {
             self.pos += 1;
-            Some(Ok(self.bytes[self.pos - 1] as char))
+            return Some(Ok(self.bytes[self.pos - 1] as char));
+        }
+
+        // A multi-byte sequence may be truncated by the end of the input, and a stray
+        // continuation byte has width 0: both are reported as an invalid byte.
+        let end = self.pos + width;
+        let chr = (width > 1 && end <= self.bytes.len())
+            .then(|| std::str::from_utf8(&self.bytes[self.pos..end]).ok())
+            .flatten()
+            .and_then(|s| s.chars().next());
+
+        if let Some(chr) = chr {
+            self.pos = end;
+            Some(Ok(chr))
         } else {
-            let c = std::str::from_utf8(&self.bytes[self.pos..self.pos + width]);
-            if let Ok(chr) = c {
-                self.pos += width;
-                Some(Ok(chr.chars().next().unwrap()))
-            } else {
-                self.pos += 1;
-                Some(Err(self.bytes[self.pos]))
-            }
+            let byte = self.bytes[self.pos];
+            self.pos += 1;
+            Some(Err(byte))
         }
     }
 }
